@@ -34,6 +34,22 @@ def split_line(ln):
     return int(idx), mode, hx, v
 
 
+
+def same_stream(v, mv):
+    """implementation stream vs model stream; a lexer that never stops is cut off by the runner after a step budget
+    (marker LOOP) and by the model after its fuel (DIVERGE): equal when one item list is a prefix of the other"""
+    if v == mv:
+        return True
+    if v is None or mv is None:
+        return False
+    if v.endswith('LOOP') and mv.endswith('DIVERGE'):
+        a = v[:-4].split()
+        b = mv[:-7].split()
+        k = min(len(a), len(b))
+        return k > 0 and a[:k] == b[:k]
+    return False
+
+
 def first_divergence(impl, spec):
     """index of first differing item, and the spec item there (None if spec has no more items)"""
     ii, si = impl[0], spec[0]
@@ -144,7 +160,7 @@ def check_stream_props(prop, tier, seed, log=print):
                         run.violation('oracle', dict(rep, first_divergence=dict(index=j, observed=a, expected=b)),
                                       key='%s|%s' % (corpus[idx].origin, hx))
             # --- tie: implementation vs interpreter model ---
-            if mv != v:
+            if not same_stream(v, mv):
                 model_dis += 1
                 if idx not in tie_reported and idx not in oracle_fail_defs:
                     tie_reported.add(idx)
@@ -560,7 +576,7 @@ def tie_pass(run, r, modes=('n', 'p'), configs=None):
                 continue
             mv = lean.get('%d LEX %s %s' % (idx, mode, hx))
             n += 1
-            if mv != v:
+            if not same_stream(v, mv):
                 dis += 1
                 bad_defs.setdefault(idx, (cfgname, mode, hx, v, mv))
     return n, dis, bad_defs
@@ -744,6 +760,27 @@ def check_c05(tier, seed, log=print):
                 fails.add(idx)
                 run.violation('safe-panic', rep_of(r, idx, cfgname, mode, hx, observed=v, what='forbid_unsafe build panicked'),
                               key='panic|%s|%s' % (r['corpus'][idx].origin, hx))
+    # spans inside the source, on every stream of every configuration (the runner prints BADSPAN instead of slicing
+    # when span() is not inside the source)
+    for cfgname in cfgs:
+        if r['zoo_out'][cfgname] is None or 'trace' in cfgname:
+            continue
+        for ln in r['zoo_out'][cfgname]:
+            idx, mode, hx, v = split_line(ln)
+            ln_ = len(bytes.fromhex(hx if hx != '-' else ''))
+            items, final, marker = parse_stream(v)
+            msg = None
+            if (marker or '').startswith('BADSPAN'):
+                msg = 'span() outside the source: %s (source length %d)' % (marker, ln_)
+            else:
+                for (k, nm, a, b) in items:
+                    if b > ln_ or a > b:
+                        msg = 'item %s:%d-%d outside a source of length %d' % (nm, a, b, ln_)
+                        break
+            if msg:
+                fails.add(idx)
+                run.violation('bounds', rep_of(r, idx, cfgname, mode, hx, observed=v, what=msg),
+                              key='bounds|%s|%s' % (r['corpus'][idx].origin, hx))
     # oracle on the real read trace: hit iff inside; recorded ends inside the source
     tn = 0
     nontriv = set()
@@ -1100,7 +1137,7 @@ def check_c12(tier, seed, log=print):
             idx, mode, hx, v = split_line(ln)
             st[(idx, hx)] = v
             mv = lean.get('%d LEX n %s' % (idx, hx))
-            if mv != v:
+            if not same_stream(v, mv):
                 tie_dis += 1
         for (i, j) in pairs:
             for x in inputs[i]:
